@@ -3,6 +3,7 @@ import HappyModel.C09.Spec
 import HappyModel.C09.SyncSpec
 import HappyModel.C09.Pool
 import HappyModel.C09.Conc
+import HappyModel.C09.ExtraDriver
 /-! Line-protocol driver for C09 (the other side is `hv/props/c09.py`). -/
 namespace HappyModel.C09.Driver
 open HappyModel.Proto
@@ -25,15 +26,16 @@ open HappyModel.C09.Res
 
 def resName : Res → String
   | .granted => "granted" | .queued => "queued" | .refused => "refused"
-  | .err => "err:ValueError" | .released => "released" | .noop => "noop"
+  | .err => "err:ValueError" | .released => "released" | .noop => "noop" | .resized => "resized"
 
 def resOfName : String → Option Res
   | "granted" => some .granted | "queued" => some .queued | "refused" => some .refused
   | "err:ValueError" => some .err | "released" => some .released | "noop" => some .noop
+  | "resized" => some .resized
   | _ => none
 
 def tail (s : St) (out : Out) : String :=
-  s!"{resName out.res} woke={showIds out.woke} a={s.avail} w={s.waiters.length}"
+  s!"{resName out.res} woke={showIds out.woke} a={s.avail} w={s.waiters.length} c={s.cap}"
 
 /-- run the engine-layer model over the body lines, echoing each with the model's result -/
 def runRes (cap : Int) (body : List String) : List String :=
@@ -53,6 +55,10 @@ def runRes (cap : Int) (body : List String) : List String :=
         match estep e (.op (natD t) (.release (natD id))) with
         | (e', .inl out) => s!"rel {t} {id} {tail e'.core out}" :: go e' ls
         | (e', _) => "bad" :: go e' ls
+      | ["cap", t, c] =>
+        match estep e (.op (natD t) (.setCapacity (intD c))) with
+        | (e', .inl out) => s!"cap {t} {c} {tail e'.core out}" :: go e' ls
+        | (e', _) => "bad" :: go e' ls
       | ["got", t, id] =>
         match estep e (.got (natD t) (natD id)) with
         | (e', .inr (.ok a)) => s!"got {t} {id} s=0 amt={a}" :: go e' ls
@@ -60,7 +66,7 @@ def runRes (cap : Int) (body : List String) : List String :=
         | (e', _) => s!"got {t} {id} !unexpected" :: go e' ls
       | ["hang", t, id] => s!"hang {t} {id} !model-never-spins" :: go e ls
       | ["fin", t] =>
-        s!"fin {t} blocked={showIds (e.core.waiters.map (·.1))} parked={showIds (e.pend.map (·.1))} a={e.core.avail} w={e.core.waiters.length}" :: go e ls
+        s!"fin {t} blocked={showIds (e.core.waiters.map (·.1))} parked={showIds (e.pend.map (·.1))} a={e.core.avail} w={e.core.waiters.length} c={e.core.cap}" :: go e ls
       | _ => s!"bad-line {l}" :: go e ls
   go ⟨St.init cap, []⟩ body
 
@@ -68,18 +74,21 @@ def parseObs (ts : List String) : Option Obs :=
   let woke := (findKv "woke" ts).map parseIds |>.getD []
   let avail := (findKv "a" ts).map intD |>.getD 0
   let nwait := (findKv "w" ts).map natD |>.getD 0
+  let capv := (findKv "c" ts).bind int?
   match ts with
   | "acq" :: t :: id :: a :: r :: _ =>
-    (resOfName r).map fun r => ⟨natD t, .acq (natD id) (intD a), r, woke, avail, nwait⟩
+    (resOfName r).map fun r => ⟨natD t, .acq (natD id) (intD a), r, woke, avail, nwait, capv⟩
   | "try" :: t :: id :: a :: r :: _ =>
-    (resOfName r).map fun r => ⟨natD t, .try_ (natD id) (intD a), r, woke, avail, nwait⟩
+    (resOfName r).map fun r => ⟨natD t, .try_ (natD id) (intD a), r, woke, avail, nwait, capv⟩
   | "rel" :: t :: id :: r :: _ =>
-    (resOfName r).map fun r => ⟨natD t, .rel (natD id), r, woke, avail, nwait⟩
+    (resOfName r).map fun r => ⟨natD t, .rel (natD id), r, woke, avail, nwait, capv⟩
+  | "cap" :: t :: c :: r :: _ =>
+    (resOfName r).map fun r => ⟨natD t, .setcap (intD c), r, woke, avail, nwait, capv⟩
   | "got" :: t :: id :: _ =>
     let spins := (findKv "s" ts).map natD |>.getD 0
-    some ⟨natD t, .got (natD id) spins, .granted, [], avail, nwait⟩
-  | "hang" :: t :: id :: _ => some ⟨natD t, .hang (natD id), .noop, [], avail, nwait⟩
-  | "fin" :: t :: _ => some ⟨natD t, .fin, .noop, [], avail, nwait⟩
+    some ⟨natD t, .got (natD id) spins, .granted, [], avail, nwait, none⟩
+  | "hang" :: t :: id :: _ => some ⟨natD t, .hang (natD id), .noop, [], avail, nwait, none⟩
+  | "fin" :: t :: _ => some ⟨natD t, .fin, .noop, [], avail, nwait, capv⟩
   | _ => none
 
 /-- `got` / `hang` lines carry no counters: judge them with the counters of the previous line -/
@@ -417,6 +426,6 @@ def handle (hdr : List String) (body : List String) : List String :=
   | ["judge-sem", cap, mode] => judgeSync true (intD cap) body (Sync.judgeSem (intD cap) (mode == "engine") {})
   | ["judge-rw", maxR, mode] => judgeSync false 0 body (Sync.judgeRW (natD maxR) (mode == "engine") {})
   | ["judge-barrier", n, mode] => judgeSync false 0 body (Sync.judgeBarrier (natD n) (mode == "engine") {})
-  | _ => ["bad-mode"]
+  | _ => (Extra.handle? hdr body).getD ["bad-mode"]
 
 end HappyModel.C09.Driver
